@@ -6,22 +6,24 @@ UNITS = [
     Unit('knownbase', harness=['h_known_base.cpp'], repo_units=CH + ['asmjit/x86/x86assembler.cpp', 'asmjit/x86/x86instdb.cpp', 'asmjit/x86/x86instapi.cpp'], extra_c=['../C10/memmove_words.c']),
 ]
 B1 = 'base address, payload and both section offsets all 2^64 values; relocation type AbsToAbs / RelToAbs / AbsToRel / unsupported; source and target section 0 or 1; target section set or kInvalidId; 0..4 trailing immediate bytes; x86-32 and 64-bit address size; 16 symbolic bytes per section (field bits zero)'
-HARNESSES = [Harness('reloc', 'h_reloc_' + k, unwind=33, bounds='format ' + k + '; ' + B1, mem_gb=4, timeout=600) for k in ('u1', 'u2', 'u4', 'u8', 's1', 's4', 's8')]
-HARNESSES += [Harness('reloc', 'h_reloc_a64_' + k, unwind=33, bounds='a64 format ' + k + ' (64-bit address size); ' + B1, mem_gb=4, timeout=600) for k in ('imm26', 'imm19', 'imm14', 'adr', 'adrp')]
-HARNESSES += [Harness('reloc', 'h_reloc_expr_%d' % n, unwind=33, bounds='label delta expression, signed %d-byte field; labels bound at any 2^64 offset in either section, unbound, or invalid id; section offsets and base all 2^64' % n, mem_gb=4, timeout=600) for n in (1, 2, 4, 8)]
+HARNESSES = [Harness('reloc', 'h_reloc_' + k, unwind=33, bounds='format ' + k + '; ' + B1, mem_gb=1, timeout=600) for k in ('u1', 'u2', 'u4', 'u8', 's1', 's4', 's8')]
+HARNESSES += [Harness('reloc', 'h_reloc_a64_' + k, unwind=33, bounds='a64 format ' + k + ' (64-bit address size); ' + B1, mem_gb=1, timeout=600) for k in ('imm26', 'imm19', 'imm14', 'adr', 'adrp')]
+HARNESSES += [Harness('reloc', 'h_reloc_expr_%d' % n, unwind=33, bounds='label delta expression, signed %d-byte field; labels bound at any 2^64 offset in either section, unbound, or invalid id; section offsets and base all 2^64' % n, mem_gb=1, timeout=600) for n in (1, 2, 4, 8)]
 BA = 'x86-64; %s call/jmp rel32 site(s) with symbolic REX and opcode bytes; targets and base address all 2^64 values; .text 16 bytes + user section 8 bytes ordered before or after .addrtab; flatten + relocate_to_base; image bytes = section buffer bytes at the section offset (the copy itself: C10 and h_addrtab_image)'
 HARNESSES += [
-    Harness('reloc', 'h_reloc_two', unwind=33, bounds='a deleted entry + two entries of type RelToAbs / AbsToRel (rel32 / abs32 with leading and trailing bytes) in the same or different sections; base, payloads, section offsets all 2^64', mem_gb=4, timeout=600),
-    Harness('reloc', 'h_reloc_bounds', unwind=33, bounds='source offset all 2^64 values, value size 1/2/4/8, 0..3 leading and 0..7 trailing bytes against 16-byte buffers', mem_gb=4, timeout=600),
-    Harness('addrtab', 'h_addrtab_one', unwind=33, bounds=BA % 'one', mem_gb=6, timeout=900),
-    Harness('addrtab', 'h_addrtab_two', unwind=33, bounds=BA % 'two', mem_gb=8, timeout=1200),
-    Harness('addrtab', 'h_addrtab_one_kf_D5', unwind=33, known='D5', bounds='as h_addrtab_one, confined to: a user section is ordered after .addrtab', mem_gb=6, timeout=900),
+    Harness('reloc', 'h_reloc_two', unwind=33, bounds='a deleted entry + two entries of type RelToAbs / AbsToRel (rel32 / abs32 with leading and trailing bytes) in the same or different sections; base, payloads, section offsets all 2^64', mem_gb=1, timeout=600),
+    Harness('reloc', 'h_reloc_bounds', unwind=33, bounds='source offset all 2^64 values, value size 1/2/4/8, 0..3 leading and 0..7 trailing bytes against 16-byte buffers', mem_gb=1, timeout=600),
+    Harness('addrtab', 'h_addrtab_one', unwind=33, bounds=BA % 'one', mem_gb=2, timeout=900),
+    Harness('addrtab', 'h_addrtab_two', unwind=33, bounds=BA % 'two', mem_gb=5, timeout=1200),
+    Harness('addrtab', 'h_addrtab_one_kf_D5', unwind=33, known='D5', bounds='as h_addrtab_one, confined to: a user section is ordered after .addrtab', mem_gb=2, timeout=900),
     Harness('addrtab', 'h_addrtab_two_kf_D5', unwind=33, known='D5', bounds='as h_addrtab_two, confined to: a user section is ordered after .addrtab', mem_gb=8, timeout=1200, tiers=('thorough',)),
     Harness('addrtab', 'h_addrtab_image', unwind=33, bounds='as h_addrtab_one; every byte is read back from the 48-byte destination of the real copy_flattened_data (8+8 guard bytes)', mem_gb=8, timeout=1800, tiers=('thorough',)),
     Harness('addrtab', 'h_addrtab_image_kf_D5', unwind=33, known='D5', bounds='as h_addrtab_image, confined to: a user section is ordered after .addrtab', mem_gb=8, timeout=1800, tiers=('thorough',)),
-    Harness('knownbase', 'h_known_base_x64', unwind=33, bounds='x86-64 call/jmp imm64 through the real x86 _emit; target and base address all 2^64 values; emitted with the base known at init and with the base assigned by relocate_to_base', mem_gb=4, timeout=1200, flags=['--max-field-sensitivity-array-size', '256'],
+    Harness('knownbase', 'h_known_base_x64_known', unwind=33, bounds='x86-64 call/jmp imm64 through the real x86 _emit with the base address known at init (+ flatten / relocate_to_base when the target is out of rel32 reach); target and base all 2^64 values', mem_gb=3, timeout=1800, flags=['--max-field-sensitivity-array-size', '256'],
             unwindset='_ZN6asmjit5v1_21L30CodeHolder_evaluate_expressionEPNS0_10CodeHolderEPNS0_10ExpressionEPm:1'),
-    Harness('knownbase', 'h_known_base_x86', unwind=33, bounds='x86-32 call/jmp imm32 through the real x86 _emit; target and base all 2^32 values; base known at init vs assigned by relocate_to_base', mem_gb=4, timeout=1200, flags=['--max-field-sensitivity-array-size', '256'],
+    Harness('knownbase', 'h_known_base_x64_relocated', unwind=33, bounds='x86-64 call/jmp imm64 through the real x86 _emit with the base unknown, then flatten + relocate_to_base; target and base all 2^64 values', mem_gb=3, timeout=1800, flags=['--max-field-sensitivity-array-size', '256'],
+            unwindset='_ZN6asmjit5v1_21L30CodeHolder_evaluate_expressionEPNS0_10CodeHolderEPNS0_10ExpressionEPm:1'),
+    Harness('knownbase', 'h_known_base_x86', unwind=33, bounds='x86-32 call/jmp imm32 through the real x86 _emit; target and base all 2^32 values; base known at init vs assigned by relocate_to_base', mem_gb=3, timeout=1200, flags=['--max-field-sensitivity-array-size', '256'],
             unwindset='_ZN6asmjit5v1_21L30CodeHolder_evaluate_expressionEPNS0_10CodeHolderEPNS0_10ExpressionEPm:1'),
 ]
 EXPLANATION = 'bounded symbolic execution (CBMC) of the real CodeHolder::relocate_to_base / flatten / copy_flattened_data / CodeWriterUtils::write_offset compiled from /repo, from directly constructed relocation tables; the oracle decodes the patched bytes the way the CPU does (reference decoders in the harness)'
